@@ -356,4 +356,5 @@ void register_algorithm_shards();
 void register_algorithm2_shards();
 void register_container_shards();
 void register_array_tuple_shards();
+void register_hetero_shards();
 }
